@@ -128,6 +128,145 @@ def upgrades : List (String × List String × List String) := [
 /-- method calls on keepers, params subspaces or the module manager inside an upgrade handler's closure that are given no block context (upgrade package, call): in-memory effects of running the handler -/
 def handlerMemoryCalls : List (String × String) := []
 
+/-- every function of the packages app, app/keepers and app/upgrades/*: name, skeleton (statements and calls in source order) -/
+def appWiring : List (String × List String) := [
+  ("app.App.AppCodec", ["return _"]),
+  ("app.App.BeginBlocker", ["return _", "call _.BeginBlock(ctx, req)"]),
+  ("app.App.Configurator", ["return _"]),
+  ("app.App.DefaultGenesis", ["return _", "call ModuleBasics.DefaultGenesis(a.appCodec)"]),
+  ("app.App.EndBlocker", ["return _", "call _.EndBlock(ctx, req)"]),
+  ("app.App.ExportAppStateAndValidators", ["assign ctx := _", "call app.NewContext(true, _)", "kv Height=app.LastBlockHeight()", "call app.LastBlockHeight()", "assign height := app.LastBlockHeight() + 1", "op +", "call app.LastBlockHeight()", "lit 1", "if forZeroHeight", "assign height = 0", "lit 0", "call app.prepForZeroHeightGenesis(ctx, jailAllowedAddrs)", "assign genState := app.ModuleManager.ExportGenesis(ctx, app.appCodec)", "call _.ExportGenesis(ctx, app.appCodec)", "assign appState,err := json.MarshalIndent(genState, \"\", \" \")", "call json.MarshalIndent(genState, \"\", \" \")", "lit \"\"", "lit \"  \"", "if err != nil", "return _,err", "assign validators,err := staking.WriteValidators(ctx, app.StakingKeeper)", "call staking.WriteValidators(ctx, app.StakingKeeper)", "return _,err", "kv AppState=appState", "kv Validators=validators", "kv Height=height", "kv ConsensusParams=app.BaseApp.GetConsensusParams(ctx)", "call _.GetConsensusParams(ctx)"]),
+  ("app.App.InitChainer", ["if err != nil", "assign err := json.Unmarshal(req.AppStateBytes, &genesisState)", "call json.Unmarshal(req.AppStateBytes, &genesisState)", "call panic(err)", "call _.SetModuleVersionMap(ctx, app.ModuleManager.GetVersionMap())", "call _.GetVersionMap()", "return _", "call _.InitGenesis(ctx, app.appCodec, genesisState)"]),
+  ("app.App.InterfaceRegistry", ["return _"]),
+  ("app.App.LegacyAmino", ["return _"]),
+  ("app.App.LoadHeight", ["return _", "call app.LoadVersion(height)"]),
+  ("app.App.Name", ["return _", "call _.Name()"]),
+  ("app.App.RegisterAPIRoutes", ["assign clientCtx := apiSvr.ClientCtx", "call authtx.RegisterGRPCGatewayRoutes(clientCtx, apiSvr.GRPCGatewayRouter)", "call tmservice.RegisterGRPCGatewayRoutes(clientCtx, apiSvr.GRPCGatewayRouter)", "call nodeservice.RegisterGRPCGatewayRoutes(clientCtx, apiSvr.GRPCGatewayRouter)", "call ModuleBasics.RegisterGRPCGatewayRoutes(clientCtx, apiSvr.GRPCGatewayRouter)", "if err != nil", "assign err := server.RegisterSwaggerAPI(apiSvr.ClientCtx, apiSvr.Router, apiConfig.Swagger)", "call server.RegisterSwaggerAPI(apiSvr.ClientCtx, apiSvr.Router, apiConfig.Swagger)", "call panic(err)"]),
+  ("app.App.RegisterNodeService", ["call nodeservice.RegisterNodeService(clientCtx, app.GRPCQueryRouter())", "call app.GRPCQueryRouter()"]),
+  ("app.App.RegisterTendermintService", ["call tmservice.RegisterTendermintService(clientCtx, app.BaseApp.GRPCQueryRouter(), app.interfaceRegistry, app.Query)", "call _.GRPCQueryRouter()"]),
+  ("app.App.RegisterTxService", ["call authtx.RegisterTxService(app.BaseApp.GRPCQueryRouter(), clientCtx, app.BaseApp.Simulate, app.interfaceRegistry)", "call _.GRPCQueryRouter()"]),
+  ("app.App.SimulationManager", ["return _"]),
+  ("app.App.TxConfig", ["return _"]),
+  ("app.App.prepForZeroHeightGenesis", ["assign applyAllowedAddrs := false", "if len(jailAllowedAddrs) > 0", "call len(jailAllowedAddrs)", "lit 0", "assign applyAllowedAddrs = true", "assign allowedAddrsMap := make(map[string]bool)", "call make(map[string]bool)", "range jailAllowedAddrs", "assign _,err := sdk.ValAddressFromBech32(addr)", "call sdk.ValAddressFromBech32(addr)", "if err != nil", "call log.Fatal(err)", "assign allowedAddrsMap[addr] = true", "call _.AssertInvariants(ctx)", "call _.IterateValidators(ctx, _)", "assign _,_ = app.DistrKeeper.WithdrawValidatorCommission(ctx, val.GetOperator())", "call _.WithdrawValidatorCommission(ctx, val.GetOperator())", "call val.GetOperator()", "return false", "assign dels := app.StakingKeeper.GetAllDelegations(ctx)", "call _.GetAllDelegations(ctx)", "range dels", "assign valAddr,err := sdk.ValAddressFromBech32(delegation.ValidatorAddress)", "call sdk.ValAddressFromBech32(delegation.ValidatorAddress)", "if err != nil", "call panic(err)", "assign delAddr := sdk.MustAccAddressFromBech32(delegation.DelegatorAddress)", "call sdk.MustAccAddressFromBech32(delegation.DelegatorAddress)", "assign _,_ = app.DistrKeeper.WithdrawDelegationRewards(ctx, delAddr, valAddr)", "call _.WithdrawDelegationRewards(ctx, delAddr, valAddr)", "call _.DeleteAllValidatorSlashEvents(ctx)", "call _.DeleteAllValidatorHistoricalRewards(ctx)", "assign height := ctx.BlockHeight()", "call ctx.BlockHeight()", "assign ctx = ctx.WithBlockHeight(0)", "call ctx.WithBlockHeight(0)", "lit 0", "call _.IterateValidators(ctx, _)", "assign scraps := app.DistrKeeper.GetValidatorOutstandingRewardsCoins(ctx, val.GetOperator())", "call _.GetValidatorOutstandingRewardsCoins(ctx, val.GetOperator())", "call val.GetOperator()", "assign feePool := app.DistrKeeper.GetFeePool(ctx)", "call _.GetFeePool(ctx)", "assign feePool.CommunityPool = feePool.CommunityPool.Add(scraps...)", "call _.Add(scraps)", "call _.SetFeePool(ctx, feePool)", "if err != nil", "assign err := app.DistrKeeper.Hooks().AfterValidatorCreated(ctx, val.GetOperator())", "call _.AfterValidatorCreated(ctx, val.GetOperator())", "call _.Hooks()", "call val.GetOperator()", "call panic(err)", "return false", "range dels", "assign valAddr,err := sdk.ValAddressFromBech32(del.ValidatorAddress)", "call sdk.ValAddressFromBech32(del.ValidatorAddress)", "if err != nil", "call panic(err)", "assign delAddr := sdk.MustAccAddressFromBech32(del.DelegatorAddress)", "call sdk.MustAccAddressFromBech32(del.DelegatorAddress)", "if err != nil", "assign err := app.DistrKeeper.Hooks().BeforeDelegationCreated(ctx, delAddr, valAddr)", "call _.BeforeDelegationCreated(ctx, delAddr, valAddr)", "call _.Hooks()", "call panic(fmt.Errorf(\"error while incrementing period: %w\", err))", "call fmt.Errorf(_, err)", "if err != nil", "assign err := app.DistrKeeper.Hooks().AfterDelegationModified(ctx, delAddr, valAddr)", "call _.AfterDelegationModified(ctx, delAddr, valAddr)", "call _.Hooks()", "call panic(_)", "call fmt.Errorf(_, err)", "assign ctx = ctx.WithBlockHeight(height)", "call ctx.WithBlockHeight(height)", "call _.IterateRedelegations(ctx, _)", "range red.Entries", "assign red.Entries[i].CreationHeight = 0", "lit 0", "call _.SetRedelegation(ctx, red)", "return false", "call _.IterateUnbondingDelegations(ctx, _)", "range ubd.Entries", "assign ubd.Entries[i].CreationHeight = 0", "lit 0", "call _.SetUnbondingDelegation(ctx, ubd)", "return false", "assign store := ctx.KVStore(app.GetKey(stakingtypes.StoreKey))", "call ctx.KVStore(app.GetKey(stakingtypes.StoreKey))", "call app.GetKey(stakingtypes.StoreKey)", "assign iter := sdk.KVStoreReversePrefixIterator(store, stakingtypes.ValidatorsKey)", "call sdk.KVStoreReversePrefixIterator(store, stakingtypes.ValidatorsKey)", "assign counter := int16(0)", "call int16(0)", "lit 0", "for iter.Valid()", "call iter.Valid()", "call iter.Next()", "assign addr := sdk.ValAddress(iter.Key()[1:])", "call sdk.ValAddress(iter.Key()[1:])", "call iter.Key()", "lit 1", "assign validator,found := app.StakingKeeper.GetValidator(ctx, addr)", "call _.GetValidator(ctx, addr)", "if !found", "call panic(\"expected validator, not found\")", "lit \"expected validator, not found\"", "assign validator.UnbondingHeight = 0", "lit 0", "if applyAllowedAddrs && !allowedAddrsMap[addr.String()]", "call addr.String()", "assign validator.Jailed = true", "call _.SetValidator(ctx, validator)", "if err != nil", "assign err := iter.Close()", "call iter.Close()", "call _.Error(_, err)", "call app.Logger()", "return ", "if err != nil", "assign _,err := app.StakingKeeper.ApplyAndReturnValidatorSetUpdates(ctx)", "call _.ApplyAndReturnValidatorSetUpdates(ctx)", "call log.Fatal(err)", "call _.IterateValidatorSigningInfos(ctx, _)", "assign info.StartHeight = 0", "lit 0", "call _.SetValidatorSigningInfo(ctx, addr, info)", "return false"]),
+  ("app.App.setAnteHandler", ["call app.SetAnteHandler(_)", "call sdktypes.ChainAnteDecorators(ante.NewSetUpContextDecorator(), ante.NewExtensionOptionsDecorator(nil), ante.NewValidateBasicDecorator(), ante.NewTxTimeoutHeightDecorator(), ante.NewValidateMemoDecorator(app.AccountKeeper), ante.NewConsumeGasForTxSizeDecorator(app.AccountKeeper), _, ante.NewSetPubKeyDecorator(app.AccountKeeper), ante.NewValidateSigCountDecorator(app.AccountKeeper), _, _, ante.NewIncrementSequenceDecorator(app.AccountKeeper), ibcante.NewRedundantRelayDecorator(app.IBCKeeper))", "call ante.NewSetUpContextDecorator()", "call ante.NewExtensionOptionsDecorator(nil)", "call ante.NewValidateBasicDecorator()", "call ante.NewTxTimeoutHeightDecorator()", "call ante.NewValidateMemoDecorator(app.AccountKeeper)", "call ante.NewConsumeGasForTxSizeDecorator(app.AccountKeeper)", "call ante.NewDeductFeeDecorator(app.AccountKeeper, app.BankKeeper, app.FeeGrantKeeper, nil)", "call ante.NewSetPubKeyDecorator(app.AccountKeeper)", "call ante.NewValidateSigCountDecorator(app.AccountKeeper)", "call ante.NewSigGasConsumeDecorator(app.AccountKeeper, ante.DefaultSigVerificationGasConsumer)", "call ante.NewSigVerificationDecorator(app.AccountKeeper, txConfig.SignModeHandler())", "call txConfig.SignModeHandler()", "call ante.NewIncrementSequenceDecorator(app.AccountKeeper)", "call ibcante.NewRedundantRelayDecorator(app.IBCKeeper)"]),
+  ("app.App.setPostHandler", ["assign postHandler,err := _", "call posthandler.NewPostHandler(_)", "if err != nil", "call panic(err)", "call app.SetPostHandler(postHandler)"]),
+  ("app.App.setupUpgradeHandlers", ["range Upgrades", "call _.SetUpgradeHandler(u.UpgradeName, _)", "call u.CreateUpgradeHandler(app.ModuleManager, app.configurator, &app.AppKeepersWithKey)"]),
+  ("app.App.setupUpgradeStoreLoaders", ["assign upgradeInfo,err := app.UpgradeKeeper.ReadUpgradeInfoFromDisk()", "call _.ReadUpgradeInfoFromDisk()", "if err != nil", "call panic(fmt.Sprintf(\"failed to read upgrade info from disk %s\", err))", "call fmt.Sprintf(_, err)", "lit \"failed to read upgrade info from disk %s\"", "if app.UpgradeKeeper.IsSkipHeight(upgradeInfo.Height)", "call _.IsSkipHeight(upgradeInfo.Height)", "return ", "range Upgrades", "if upgradeInfo.Name == u.UpgradeName", "call app.SetStoreLoader(_)", "call upgradetypes.UpgradeStoreLoader(upgradeInfo.Height, &(u.StoreUpgrades))"]),
+  ("app.BlockedAddresses", ["assign modAccAddrs := make(map[string]bool)", "call make(map[string]bool)", "range GetMaccPerms()", "call GetMaccPerms()", "assign modAccAddrs[authtypes.NewModuleAddress(acc).String()] = true", "call _.String()", "call authtypes.NewModuleAddress(acc)", "call delete(modAccAddrs, authtypes.NewModuleAddress(govtypes.ModuleName).String())", "call _.String()", "call authtypes.NewModuleAddress(govtypes.ModuleName)", "return modAccAddrs"]),
+  ("app.GetMaccPerms", ["assign dupMaccPerms := make(map[string][]string)", "call make(map[string][]string)", "range maccPerms", "assign dupMaccPerms[k] = v", "return dupMaccPerms"]),
+  ("app.MakeEncodingConfig", ["assign encodingConfig := params.MakeEncodingConfig()", "call params.MakeEncodingConfig()", "call std.RegisterLegacyAminoCodec(encodingConfig.Amino)", "call std.RegisterInterfaces(encodingConfig.InterfaceRegistry)", "call ModuleBasics.RegisterLegacyAminoCodec(encodingConfig.Amino)", "call ModuleBasics.RegisterInterfaces(encodingConfig.InterfaceRegistry)", "return encodingConfig"]),
+  ("app.New", ["assign encodingConfig := makeEncodingConfig()", "call makeEncodingConfig()", "assign appCodec := encodingConfig.Codec", "assign legacyAmino := encodingConfig.Amino", "assign interfaceRegistry := encodingConfig.InterfaceRegistry", "assign txConfig := encodingConfig.TxConfig", "assign bApp := baseapp.NewBaseApp(Name, logger, db, txConfig.TxDecoder(), baseAppOptions...)", "call baseapp.NewBaseApp(Name, logger, db, txConfig.TxDecoder(), baseAppOptions)", "call txConfig.TxDecoder()", "call bApp.SetCommitMultiStoreTracer(traceStore)", "call bApp.SetVersion(version.Version)", "call bApp.SetInterfaceRegistry(interfaceRegistry)", "call bApp.SetTxEncoder(txConfig.TxEncoder())", "call txConfig.TxEncoder()", "assign app := _", "kv BaseApp=bApp", "kv AppKeepersWithKey", "kv legacyAmino=legacyAmino", "kv appCodec=appCodec", "kv txConfig=txConfig", "kv interfaceRegistry=interfaceRegistry", "call app.InitKeyAndKeepers(encodingConfig, maccPerms, BlockedAddresses(), appOpts, bApp)", "call BlockedAddresses()", "if err != nil", "assign _,_,err := streaming.LoadStreamingServices(bApp, appOpts, appCodec, logger, app.GetKVStoreKey())", "call streaming.LoadStreamingServices(bApp, appOpts, appCodec, logger, app.GetKVStoreKey())", "call app.GetKVStoreKey()", "call logger.Error(_, _, err)", "call os.Exit(1)", "lit 1", "call bApp.SetParamStore(&app.ConsensusParamsKeeper)", "call app.SetupHooks()", "call _.Seal()", "assign skipGenesisInvariants := cast.ToBool(appOpts.Get(crisis.FlagSkipGenesisInvariants))", "call cast.ToBool(appOpts.Get(crisis.FlagSkipGenesisInvariants))", "call appOpts.Get(crisis.FlagSkipGenesisInvariants)", "assign app.ModuleManager = _", "call module.NewManager(_, _, vesting.NewAppModule(app.AccountKeeper, app.BankKeeper), _, _, _, _, _, _, _, _, _, upgrade.NewAppModule(app.UpgradeKeeper), evidence.NewAppModule(app.EvidenceKeeper), params.NewAppModule(app.ParamsKeeper), _, _, consensus.NewAppModule(appCodec, app.ConsensusParamsKeeper), ibc.NewAppModule(app.IBCKeeper), transfer.NewAppModule(app.TransferKeeper), aol.NewAppModule(appCodec, app.AolKeeper), did.NewAppModule(appCodec, app.DidKeeper), burn.NewAppModule(appCodec, app.BurnKeeper), pnft.NewAppModule(appCodec, &app.PnftKeeper))", "call genutil.NewAppModule(app.AccountKeeper, app.StakingKeeper, app.BaseApp.DeliverTx, encodingConfig.TxConfig)", "call auth.NewAppModule(appCodec, app.AccountKeeper, authsims.RandomGenesisAccounts, app.GetSubspace(authtypes.ModuleName))", "call app.GetSubspace(authtypes.ModuleName)", "call vesting.NewAppModule(app.AccountKeeper, app.BankKeeper)", "call bank.NewAppModule(appCodec, app.BankKeeper, app.AccountKeeper, app.GetSubspace(banktypes.ModuleName))", "call app.GetSubspace(banktypes.ModuleName)", "call capability.NewAppModule(appCodec, *app.CapabilityKeeper, false)", "call crisis.NewAppModule(app.CrisisKeeper, skipGenesisInvariants, app.GetSubspace(crisistypes.ModuleName))", "call app.GetSubspace(crisistypes.ModuleName)", "call feegrantmodule.NewAppModule(appCodec, app.AccountKeeper, app.BankKeeper, app.FeeGrantKeeper, app.interfaceRegistry)", "call gov.NewAppModule(appCodec, &app.GovKeeper, app.AccountKeeper, app.BankKeeper, app.GetSubspace(govtypes.ModuleName))", "call app.GetSubspace(govtypes.ModuleName)", "call mint.NewAppModule(appCodec, app.MintKeeper, app.AccountKeeper, nil, app.GetSubspace(minttypes.ModuleName))", "call app.GetSubspace(minttypes.ModuleName)", "call slashing.NewAppModule(appCodec, app.SlashingKeeper, app.AccountKeeper, app.BankKeeper, app.StakingKeeper, app.GetSubspace(slashingtypes.ModuleName))", "call app.GetSubspace(slashingtypes.ModuleName)", "call distr.NewAppModule(appCodec, app.DistrKeeper, app.AccountKeeper, app.BankKeeper, app.StakingKeeper, app.GetSubspace(distrtypes.ModuleName))", "call app.GetSubspace(distrtypes.ModuleName)", "call staking.NewAppModule(appCodec, app.StakingKeeper, app.AccountKeeper, app.BankKeeper, app.GetSubspace(stakingtypes.ModuleName))", "call app.GetSubspace(stakingtypes.ModuleName)", "call upgrade.NewAppModule(app.UpgradeKeeper)", "call evidence.NewAppModule(app.EvidenceKeeper)", "call params.NewAppModule(app.ParamsKeeper)", "call authzmodule.NewAppModule(appCodec, app.AuthzKeeper, app.AccountKeeper, app.BankKeeper, app.interfaceRegistry)", "call groupmodule.NewAppModule(appCodec, app.GroupKeeper, app.AccountKeeper, app.BankKeeper, app.interfaceRegistry)", "call consensus.NewAppModule(appCodec, app.ConsensusParamsKeeper)", "call ibc.NewAppModule(app.IBCKeeper)", "call transfer.NewAppModule(app.TransferKeeper)", "call aol.NewAppModule(appCodec, app.AolKeeper)", "call did.NewAppModule(appCodec, app.DidKeeper)", "call burn.NewAppModule(appCodec, app.BurnKeeper)", "call pnft.NewAppModule(appCodec, &app.PnftKeeper)", "call _.SetOrderBeginBlockers(upgradetypes.ModuleName, capabilitytypes.ModuleName, minttypes.ModuleName, distrtypes.ModuleName, slashingtypes.ModuleName, evidencetypes.ModuleName, stakingtypes.ModuleName, authtypes.ModuleName, banktypes.ModuleName, govtypes.ModuleName, crisistypes.ModuleName, genutiltypes.ModuleName, authz.ModuleName, feegrant.ModuleName, group.ModuleName, paramstypes.ModuleName, vestingtypes.ModuleName, consensusparamtypes.ModuleName, ibcexported.ModuleName, ibctransfertypes.ModuleName, aoltypes.ModuleName, didtypes.ModuleName, burntypes.ModuleName, pnfttypes.ModuleName)", "call _.SetOrderEndBlockers(crisistypes.ModuleName, govtypes.ModuleName, stakingtypes.ModuleName, capabilitytypes.ModuleName, authtypes.ModuleName, banktypes.ModuleName, distrtypes.ModuleName, slashingtypes.ModuleName, minttypes.ModuleName, genutiltypes.ModuleName, evidencetypes.ModuleName, authz.ModuleName, feegrant.ModuleName, group.ModuleName, paramstypes.ModuleName, upgradetypes.ModuleName, vestingtypes.ModuleName, consensusparamtypes.ModuleName, ibcexported.ModuleName, ibctransfertypes.ModuleName, aoltypes.ModuleName, didtypes.ModuleName, burntypes.ModuleName, pnfttypes.ModuleName)", "assign genesisModuleOrder := _", "call _.SetOrderInitGenesis(genesisModuleOrder)", "call _.SetOrderExportGenesis(genesisModuleOrder)", "call _.RegisterInvariants(app.CrisisKeeper)", "assign app.configurator = module.NewConfigurator(app.appCodec, app.MsgServiceRouter(), app.GRPCQueryRouter())", "call module.NewConfigurator(app.appCodec, app.MsgServiceRouter(), app.GRPCQueryRouter())", "call app.MsgServiceRouter()", "call app.GRPCQueryRouter()", "call _.RegisterServices(app.configurator)", "call app.setupUpgradeStoreLoaders()", "call app.setupUpgradeHandlers()", "call autocliv1.RegisterQueryServer(app.GRPCQueryRouter(), _)", "call app.GRPCQueryRouter()", "call runtimeservices.NewAutoCLIQueryService(app.ModuleManager.Modules)", "assign reflectionSvc,err := runtimeservices.NewReflectionService()", "call runtimeservices.NewReflectionService()", "if err != nil", "call panic(err)", "call reflectionv1.RegisterReflectionServiceServer(app.GRPCQueryRouter(), reflectionSvc)", "call app.GRPCQueryRouter()", "call testdata.RegisterQueryServer(app.GRPCQueryRouter(), _)", "call app.GRPCQueryRouter()", "assign overrideModules := _", "kv authtypes.ModuleName", "call auth.NewAppModule(app.appCodec, app.AccountKeeper, authsims.RandomGenesisAccounts, app.GetSubspace(authtypes.ModuleName))", "call app.GetSubspace(authtypes.ModuleName)", "assign app.sm = module.NewSimulationManagerFromAppModules( app.ModuleManager.Modules, overrideModules, )", "call module.NewSimulationManagerFromAppModules(app.ModuleManager.Modules, overrideModules)", "call _.RegisterStoreDecoders()", "call app.MountKVStores(app.GetKVStoreKey())", "call app.GetKVStoreKey()", "call app.MountTransientStores(app.GetTransientStoreKey())", "call app.GetTransientStoreKey()", "call app.MountMemoryStores(app.GetMemoryStoreKey())", "call app.GetMemoryStoreKey()", "call app.SetInitChainer(app.InitChainer)", "call app.SetBeginBlocker(app.BeginBlocker)", "call app.SetEndBlocker(app.EndBlocker)", "call app.setAnteHandler(encodingConfig.TxConfig)", "call app.setPostHandler()", "if loadLatest", "if err != nil", "assign err := app.LoadLatestVersion()", "call app.LoadLatestVersion()", "call logger.Error(_, _, err)", "call os.Exit(1)", "lit 1", "return app"]),
+  ("app.SetConfig", ["assign config := sdk.GetConfig()", "call sdk.GetConfig()", "call config.SetPurpose(44)", "lit 44", "call config.SetCoinType(371)", "lit 371", "call config.SetBech32PrefixForAccount(AccountAddressPrefix, AccountPubKeyPrefix)", "call config.SetBech32PrefixForValidator(ValidatorAddressPrefix, ValidatorPubKeyPrefix)", "call config.SetBech32PrefixForConsensusNode(ConsNodeAddressPrefix, ConsNodePubKeyPrefix)", "call config.Seal()"]),
+  ("app.init", ["assign userHomeDir,err := os.UserHomeDir()", "call os.UserHomeDir()", "if err != nil", "call panic(err)", "assign DefaultNodeHome = filepath.Join(userHomeDir, \".\"+Name)", "call filepath.Join(userHomeDir, \".\" + Name)", "op +", "lit \".\""]),
+  ("app.makeEncodingConfig", ["assign encodingConfig := appparams.MakeEncodingConfig()", "call appparams.MakeEncodingConfig()", "call std.RegisterLegacyAminoCodec(encodingConfig.Amino)", "call std.RegisterInterfaces(encodingConfig.InterfaceRegistry)", "call ModuleBasics.RegisterLegacyAminoCodec(encodingConfig.Amino)", "call ModuleBasics.RegisterInterfaces(encodingConfig.InterfaceRegistry)", "return encodingConfig"]),
+  ("app/keepers.AppKeepersWithKey.GenerateKeys", ["assign appKeepers.keys = _", "call sdk.NewKVStoreKeys(authtypes.StoreKey, banktypes.StoreKey, stakingtypes.StoreKey, crisistypes.StoreKey, minttypes.StoreKey, distrtypes.StoreKey, slashingtypes.StoreKey, govtypes.StoreKey, paramstypes.StoreKey, consensusparamtypes.StoreKey, upgradetypes.StoreKey, feegrant.StoreKey, evidencetypes.StoreKey, capabilitytypes.StoreKey, authzkeeper.StoreKey, group.StoreKey, ibcexported.StoreKey, ibctransfertypes.StoreKey, aoltypes.StoreKey, didtypes.StoreKey, burntypes.StoreKey, pnfttypes.StoreKey)", "assign appKeepers.tkeys = sdk.NewTransientStoreKeys(paramstypes.TStoreKey)", "call sdk.NewTransientStoreKeys(paramstypes.TStoreKey)", "assign appKeepers.memKeys = sdk.NewMemoryStoreKeys(capabilitytypes.MemStoreKey)", "call sdk.NewMemoryStoreKeys(capabilitytypes.MemStoreKey)"]),
+  ("app/keepers.AppKeepersWithKey.GetKVStoreKey", ["return _"]),
+  ("app/keepers.AppKeepersWithKey.GetKey", ["return _"]),
+  ("app/keepers.AppKeepersWithKey.GetMemKey", ["return _"]),
+  ("app/keepers.AppKeepersWithKey.GetMemoryStoreKey", ["return _"]),
+  ("app/keepers.AppKeepersWithKey.GetSubspace", ["assign subspace,_ := appKeepers.ParamsKeeper.GetSubspace(moduleName)", "call _.GetSubspace(moduleName)", "return subspace"]),
+  ("app/keepers.AppKeepersWithKey.GetTKey", ["return _"]),
+  ("app/keepers.AppKeepersWithKey.GetTransientStoreKey", ["return _"]),
+  ("app/keepers.AppKeepersWithKey.InitKeyAndKeepers", ["call appKeepers.GenerateKeys()", "assign appCodec := encodingConfig.Codec", "assign legacyAmino := encodingConfig.Amino", "assign appKeepers.ParamsKeeper = _", "call initParamsKeeper(appCodec, legacyAmino, appKeepers.keys[paramstypes.StoreKey], appKeepers.tkeys[paramstypes.TStoreKey])", "assign appKeepers.ConsensusParamsKeeper = _", "call consensusparamkeeper.NewKeeper(appCodec, appKeepers.keys[consensusparamtypes.StoreKey], authtypes.NewModuleAddress(govtypes.ModuleName).String())", "call _.String()", "call authtypes.NewModuleAddress(govtypes.ModuleName)", "assign appKeepers.CapabilityKeeper = _", "call capabilitykeeper.NewKeeper(appCodec, appKeepers.keys[capabilitytypes.StoreKey], appKeepers.memKeys[capabilitytypes.MemStoreKey])", "assign appKeepers.ScopedIBCKeeper = appKeepers.CapabilityKeeper.ScopeToModule(ibcexported.ModuleName)", "call _.ScopeToModule(ibcexported.ModuleName)", "assign appKeepers.ScopedTransferKeeper = appKeepers.CapabilityKeeper.ScopeToModule(ibctransfertypes.ModuleName)", "call _.ScopeToModule(ibctransfertypes.ModuleName)", "assign appKeepers.AccountKeeper = _", "call authkeeper.NewAccountKeeper(appCodec, appKeepers.keys[authtypes.StoreKey], authtypes.ProtoBaseAccount, maccPerms, sdk.Bech32MainPrefix, authtypes.NewModuleAddress(govtypes.ModuleName).String())", "call _.String()", "call authtypes.NewModuleAddress(govtypes.ModuleName)", "assign appKeepers.BankKeeper = _", "call bankkeeper.NewBaseKeeper(appCodec, appKeepers.keys[banktypes.StoreKey], appKeepers.AccountKeeper, blockedAddrs, authtypes.NewModuleAddress(govtypes.ModuleName).String())", "call _.String()", "call authtypes.NewModuleAddress(govtypes.ModuleName)", "assign appKeepers.StakingKeeper = _", "call stakingkeeper.NewKeeper(appCodec, appKeepers.keys[stakingtypes.StoreKey], appKeepers.AccountKeeper, appKeepers.BankKeeper, authtypes.NewModuleAddress(govtypes.ModuleName).String())", "call _.String()", "call authtypes.NewModuleAddress(govtypes.ModuleName)", "assign appKeepers.MintKeeper = _", "call mintkeeper.NewKeeper(appCodec, appKeepers.keys[minttypes.StoreKey], appKeepers.StakingKeeper, appKeepers.AccountKeeper, appKeepers.BankKeeper, authtypes.FeeCollectorName, authtypes.NewModuleAddress(govtypes.ModuleName).String())", "call _.String()", "call authtypes.NewModuleAddress(govtypes.ModuleName)", "assign appKeepers.DistrKeeper = _", "call distrkeeper.NewKeeper(appCodec, appKeepers.keys[distrtypes.StoreKey], appKeepers.AccountKeeper, appKeepers.BankKeeper, appKeepers.StakingKeeper, authtypes.FeeCollectorName, authtypes.NewModuleAddress(govtypes.ModuleName).String())", "call _.String()", "call authtypes.NewModuleAddress(govtypes.ModuleName)", "assign appKeepers.SlashingKeeper = _", "call slashingkeeper.NewKeeper(appCodec, legacyAmino, appKeepers.keys[slashingtypes.StoreKey], appKeepers.StakingKeeper, authtypes.NewModuleAddress(govtypes.ModuleName).String())", "call _.String()", "call authtypes.NewModuleAddress(govtypes.ModuleName)", "assign invCheckPeriod := cast.ToUint(appOpts.Get(server.FlagInvCheckPeriod))", "call cast.ToUint(appOpts.Get(server.FlagInvCheckPeriod))", "call appOpts.Get(server.FlagInvCheckPeriod)", "assign appKeepers.CrisisKeeper = _", "call crisiskeeper.NewKeeper(appCodec, appKeepers.keys[crisistypes.StoreKey], invCheckPeriod, appKeepers.BankKeeper, authtypes.FeeCollectorName, authtypes.NewModuleAddress(govtypes.ModuleName).String())", "call _.String()", "call authtypes.NewModuleAddress(govtypes.ModuleName)", "assign appKeepers.FeeGrantKeeper = _", "call feegrantkeeper.NewKeeper(appCodec, appKeepers.keys[feegrant.StoreKey], appKeepers.AccountKeeper)", "assign appKeepers.AuthzKeeper = _", "call authzkeeper.NewKeeper(appKeepers.keys[authzkeeper.StoreKey], appCodec, bApp.MsgServiceRouter(), appKeepers.AccountKeeper)", "call bApp.MsgServiceRouter()", "assign groupConfig := group.DefaultConfig()", "call group.DefaultConfig()", "assign appKeepers.GroupKeeper = _", "call groupkeeper.NewKeeper(appKeepers.keys[group.StoreKey], appCodec, bApp.MsgServiceRouter(), appKeepers.AccountKeeper, groupConfig)", "call bApp.MsgServiceRouter()", "assign skipUpgradeHeights := _", "range cast.ToIntSlice(appOpts.Get(server.FlagUnsafeSkipUpgrades))", "call cast.ToIntSlice(appOpts.Get(server.FlagUnsafeSkipUpgrades))", "call appOpts.Get(server.FlagUnsafeSkipUpgrades)", "assign skipUpgradeHeights[int64(h)] = true", "call int64(h)", "assign homePath := cast.ToString(appOpts.Get(flags.FlagHome))", "call cast.ToString(appOpts.Get(flags.FlagHome))", "call appOpts.Get(flags.FlagHome)", "assign appKeepers.UpgradeKeeper = _", "call upgradekeeper.NewKeeper(skipUpgradeHeights, appKeepers.keys[upgradetypes.StoreKey], appCodec, homePath, bApp, authtypes.NewModuleAddress(govtypes.ModuleName).String())", "call _.String()", "call authtypes.NewModuleAddress(govtypes.ModuleName)", "assign evidenceKeeper := _", "call evidencekeeper.NewKeeper(appCodec, appKeepers.keys[evidencetypes.StoreKey], appKeepers.StakingKeeper, appKeepers.SlashingKeeper)", "assign appKeepers.EvidenceKeeper = *evidenceKeeper", "assign appKeepers.IBCKeeper = _", "call ibckeeper.NewKeeper(appCodec, appKeepers.keys[ibcexported.StoreKey], appKeepers.GetSubspace(ibcexported.ModuleName), appKeepers.StakingKeeper, appKeepers.UpgradeKeeper, appKeepers.ScopedIBCKeeper)", "call appKeepers.GetSubspace(ibcexported.ModuleName)", "assign govConfig := govtypes.DefaultConfig()", "call govtypes.DefaultConfig()", "assign govConfig.MaxMetadataLen = 10200", "lit 10200", "assign appKeepers.GovKeeper = _", "call govkeeper.NewKeeper(appCodec, appKeepers.keys[govtypes.StoreKey], appKeepers.AccountKeeper, appKeepers.BankKeeper, appKeepers.StakingKeeper, bApp.MsgServiceRouter(), govConfig, authtypes.NewModuleAddress(govtypes.ModuleName).String())", "call bApp.MsgServiceRouter()", "call _.String()", "call authtypes.NewModuleAddress(govtypes.ModuleName)", "assign appKeepers.TransferKeeper = _", "call ibctransferkeeper.NewKeeper(appCodec, appKeepers.keys[ibctransfertypes.StoreKey], appKeepers.GetSubspace(ibctransfertypes.ModuleName), appKeepers.IBCKeeper.ChannelKeeper, appKeepers.IBCKeeper.ChannelKeeper, &appKeepers.IBCKeeper.PortKeeper, appKeepers.AccountKeeper, appKeepers.BankKeeper, appKeepers.ScopedTransferKeeper)", "call appKeepers.GetSubspace(ibctransfertypes.ModuleName)", "assign appKeepers.AolKeeper = _", "call aolkeeper.NewKeeper(appCodec, appKeepers.keys[aoltypes.StoreKey], appKeepers.keys[aoltypes.MemStoreKey])", "assign appKeepers.DidKeeper = _", "call didkeeper.NewKeeper(appCodec, appKeepers.keys[didtypes.StoreKey], appKeepers.keys[didtypes.MemStoreKey])", "assign appKeepers.BurnKeeper = *burnkeeper.NewKeeper( appKeepers.BankKeeper, )", "call burnkeeper.NewKeeper(appKeepers.BankKeeper)", "assign appKeepers.PnftKeeper = _", "call pnftkeeper.NewKeeper(appCodec, appKeepers.keys[pnfttypes.StoreKey], appKeepers.AccountKeeper, appKeepers.BankKeeper)", "assign govRouter := govv1beta1.NewRouter()", "call govv1beta1.NewRouter()", "call _.AddRoute(ibcclienttypes.RouterKey, _)", "call _.AddRoute(ibcexported.RouterKey, _)", "call _.AddRoute(upgradetypes.RouterKey, _)", "call _.AddRoute(paramproposal.RouterKey, _)", "call govRouter.AddRoute(govtypes.RouterKey, govv1beta1.ProposalHandler)", "call params.NewParamChangeProposalHandler(appKeepers.ParamsKeeper)", "call upgrade.NewSoftwareUpgradeProposalHandler(appKeepers.UpgradeKeeper)", "call ibcclient.NewClientProposalHandler(appKeepers.IBCKeeper.ClientKeeper)", "call ibcclient.NewClientProposalHandler(appKeepers.IBCKeeper.ClientKeeper)", "call _.SetLegacyRouter(govRouter)", "assign ibcRouter := porttypes.NewRouter()", "call porttypes.NewRouter()", "call ibcRouter.AddRoute(ibctransfertypes.ModuleName, transfer.NewIBCModule(appKeepers.TransferKeeper))", "call transfer.NewIBCModule(appKeepers.TransferKeeper)", "call _.SetRouter(ibcRouter)"]),
+  ("app/keepers.AppKeepersWithKey.SetupHooks", ["call _.SetHooks(_)", "call stakingtypes.NewMultiStakingHooks(appKeepers.DistrKeeper.Hooks(), appKeepers.SlashingKeeper.Hooks())", "call _.Hooks()", "call _.Hooks()"]),
+  ("app/keepers.initParamsKeeper", ["assign paramsKeeper := paramskeeper.NewKeeper(appCodec, legacyAmino, key, tkey)", "call paramskeeper.NewKeeper(appCodec, legacyAmino, key, tkey)", "call paramsKeeper.Subspace(authtypes.ModuleName)", "call paramsKeeper.Subspace(banktypes.ModuleName)", "call paramsKeeper.Subspace(stakingtypes.ModuleName)", "call paramsKeeper.Subspace(minttypes.ModuleName)", "call paramsKeeper.Subspace(distrtypes.ModuleName)", "call paramsKeeper.Subspace(slashingtypes.ModuleName)", "call paramsKeeper.Subspace(govtypes.ModuleName)", "call paramsKeeper.Subspace(crisistypes.ModuleName)", "call paramsKeeper.Subspace(ibctransfertypes.ModuleName)", "call paramsKeeper.Subspace(ibcexported.ModuleName)", "return paramsKeeper"]),
+  ("app/upgrades/v2_0_5.CreateUpgradeHandle", ["return _", "assign fromVM := _", "kv \"auth\"=1", "lit \"auth\"", "lit 1", "kv \"bank\"=1", "lit \"bank\"", "lit 1", "kv \"capability\"=1", "lit \"capability\"", "lit 1", "kv \"crisis\"=1", "lit \"crisis\"", "lit 1", "kv \"distribution\"=1", "lit \"distribution\"", "lit 1", "kv \"evidence\"=1", "lit \"evidence\"", "lit 1", "kv \"gov\"=1", "lit \"gov\"", "lit 1", "kv \"mint\"=1", "lit \"mint\"", "lit 1", "kv \"params\"=1", "lit \"params\"", "lit 1", "kv \"slashing\"=1", "lit \"slashing\"", "lit 1", "kv \"staking\"=1", "lit \"staking\"", "lit 1", "kv \"upgrade\"=1", "lit \"upgrade\"", "lit 1", "kv \"vesting\"=1", "lit \"vesting\"", "lit 1", "kv \"ibc\"=1", "lit \"ibc\"", "lit 1", "kv \"genutil\"=1", "lit \"genutil\"", "lit 1", "kv \"transfer\"=1", "lit \"transfer\"", "lit 1", "kv \"aol\"=1", "lit \"aol\"", "lit 1", "kv \"did\"=1", "lit \"did\"", "lit 1", "kv \"burn\"=1", "lit \"burn\"", "lit 1", "kv \"wasm\"=1", "lit \"wasm\"", "lit 1", "call _.SetParams(ctx, ibcconnectiontypes.DefaultParams())", "call ibcconnectiontypes.DefaultParams()", "return _", "call mm.RunMigrations(ctx, configurator, fromVM)"]),
+  ("app/upgrades/v2_0_6.CreateUpgradeHandle", ["return _", "return _", "call mm.RunMigrations(ctx, configurator, fromVM)"]),
+  ("app/upgrades/v2_0_7.CreateUpgradeHandle", ["return _", "return _", "call mm.RunMigrations(ctx, configurator, fromVM)"]),
+  ("app/upgrades/v2_2_0.CreateUpgradeHandle", ["assign subspaces := keepers.ParamsKeeper.GetSubspaces()", "call _.GetSubspaces()", "range subspaces", "assign subspace := subspace", "switch subspace.Name()", "call subspace.Name()", "case authtypes.ModuleName", "assign keyTable = authtypes.ParamKeyTable()", "call authtypes.ParamKeyTable()", "case banktypes.ModuleName", "assign keyTable = banktypes.ParamKeyTable()", "call banktypes.ParamKeyTable()", "case stakingtypes.ModuleName", "assign keyTable = stakingtypes.ParamKeyTable()", "call stakingtypes.ParamKeyTable()", "case minttypes.ModuleName", "assign keyTable = minttypes.ParamKeyTable()", "call minttypes.ParamKeyTable()", "case distrtypes.ModuleName", "assign keyTable = distrtypes.ParamKeyTable()", "call distrtypes.ParamKeyTable()", "case slashingtypes.ModuleName", "assign keyTable = slashingtypes.ParamKeyTable()", "call slashingtypes.ParamKeyTable()", "case govtypes.ModuleName", "assign keyTable = govv1.ParamKeyTable()", "call govv1.ParamKeyTable()", "case crisistypes.ModuleName", "assign keyTable = crisistypes.ParamKeyTable()", "call crisistypes.ParamKeyTable()", "if !subspace.HasKeyTable()", "call subspace.HasKeyTable()", "call subspace.WithKeyTable(keyTable)", "assign baseAppLegacySS := _", "call _.WithKeyTable(paramstypes.ConsensusParamsKeyTable())", "call _.Subspace(baseapp.Paramspace)", "call paramstypes.ConsensusParamsKeyTable()", "return _", "call baseapp.MigrateParams(ctx, baseAppLegacySS, &keepers.ConsensusParamsKeeper)", "assign toVM,err := mm.RunMigrations(ctx, configurator, fromVM)", "call mm.RunMigrations(ctx, configurator, fromVM)", "if err != nil", "return fromVM,err", "assign params := keepers.StakingKeeper.GetParams(ctx)", "call _.GetParams(ctx)", "assign params.MinCommissionRate = sdk.NewDecWithPrec(3, 2)", "call sdk.NewDecWithPrec(3, 2)", "lit 3", "lit 2", "if err != nil", "assign err := keepers.StakingKeeper.SetParams(ctx, params)", "call _.SetParams(ctx, params)", "return fromVM,err", "return toVM,nil"]),
+  ("app/upgrades/v2_2_1.CreateUpgradeHandle", ["return _", "return _", "call mm.RunMigrations(ctx, configurator, fromVM)"])
+]
+
+/-- every function of the root packages x/<module> (module.go, genesis.go and whatever else is there): name, skeleton -/
+def moduleWiring : List (String × List String) := [
+  ("x/aol.AppModule.BeginBlock", []),
+  ("x/aol.AppModule.ConsensusVersion", ["return 1", "lit 1"]),
+  ("x/aol.AppModule.EndBlock", ["return _"]),
+  ("x/aol.AppModule.ExportGenesis", ["assign genState := ExportGenesis(ctx, am.keeper)", "call ExportGenesis(ctx, am.keeper)", "return _", "call cdc.MustMarshalJSON(genState)"]),
+  ("x/aol.AppModule.InitGenesis", ["call cdc.MustUnmarshalJSON(gs, &genState)", "call InitGenesis(ctx, am.keeper, genState)", "return _"]),
+  ("x/aol.AppModule.Name", ["return _", "call _.Name()"]),
+  ("x/aol.AppModule.QuerierRoute", ["return _"]),
+  ("x/aol.AppModule.RegisterInvariants", []),
+  ("x/aol.AppModule.RegisterServices", ["call types.RegisterQueryServer(cfg.QueryServer(), am.keeper)", "call cfg.QueryServer()", "call types.RegisterMsgServer(cfg.MsgServer(), keeper.NewMsgServerImpl(am.keeper))", "call cfg.MsgServer()", "call keeper.NewMsgServerImpl(am.keeper)"]),
+  ("x/aol.AppModuleBasic.DefaultGenesis", ["return _", "call cdc.MustMarshalJSON(types.DefaultGenesis())", "call types.DefaultGenesis()"]),
+  ("x/aol.AppModuleBasic.GetQueryCmd", ["return _", "call cli.GetQueryCmd(types.StoreKey)"]),
+  ("x/aol.AppModuleBasic.GetTxCmd", ["return _", "call cli.GetTxCmd()"]),
+  ("x/aol.AppModuleBasic.Name", ["return _"]),
+  ("x/aol.AppModuleBasic.RegisterCodec", ["call types.RegisterCodec(cdc)"]),
+  ("x/aol.AppModuleBasic.RegisterGRPCGatewayRoutes", ["if err != nil", "assign err := _", "call types.RegisterQueryHandlerClient(context.Background(), mux, types.NewQueryClient(clientCtx))", "call context.Background()", "call types.NewQueryClient(clientCtx)", "call panic(err)"]),
+  ("x/aol.AppModuleBasic.RegisterInterfaces", ["call types.RegisterInterfaces(reg)"]),
+  ("x/aol.AppModuleBasic.RegisterLegacyAminoCodec", ["call types.RegisterCodec(cdc)"]),
+  ("x/aol.AppModuleBasic.ValidateGenesis", ["if err != nil", "assign err := cdc.UnmarshalJSON(bz, &genState)", "call cdc.UnmarshalJSON(bz, &genState)", "return _", "call fmt.Errorf(_, types.ModuleName, err)", "return _", "call genState.Validate()"]),
+  ("x/aol.ExportGenesis", ["assign genesis := types.DefaultGenesis()", "call types.DefaultGenesis()", "assign ownerKeys,owners := k.GetAllOwners(ctx)", "call k.GetAllOwners(ctx)", "range ownerKeys", "assign genesis.Owners[compkey.EncodeToString(&key, types.GenesisKeySeparator)] = &owners[i]", "call compkey.EncodeToString(&key, types.GenesisKeySeparator)", "assign topicKeys,topics := k.GetAllTopics(ctx)", "call k.GetAllTopics(ctx)", "range topicKeys", "assign genesis.Topics[compkey.EncodeToString(&key, types.GenesisKeySeparator)] = &topics[i]", "call compkey.EncodeToString(&key, types.GenesisKeySeparator)", "assign writerKeys,writers := k.GetAllWriters(ctx)", "call k.GetAllWriters(ctx)", "range writerKeys", "assign genesis.Writers[compkey.EncodeToString(&key, types.GenesisKeySeparator)] = &writers[i]", "call compkey.EncodeToString(&key, types.GenesisKeySeparator)", "assign recordKeys,records := k.GetAllRecords(ctx)", "call k.GetAllRecords(ctx)", "range recordKeys", "assign genesis.Records[compkey.EncodeToString(&key, types.GenesisKeySeparator)] = &records[i]", "call compkey.EncodeToString(&key, types.GenesisKeySeparator)", "return genesis"]),
+  ("x/aol.InitGenesis", ["range genState.Owners", "call compkey.MustDecodeFromString(keyStr, types.GenesisKeySeparator, &key)", "call k.SetOwner(ctx, key, *owner)", "range genState.Topics", "call compkey.MustDecodeFromString(keyStr, types.GenesisKeySeparator, &key)", "call k.SetTopic(ctx, key, *topic)", "range genState.Writers", "call compkey.MustDecodeFromString(keyStr, types.GenesisKeySeparator, &key)", "call k.SetWriter(ctx, key, *writer)", "range genState.Records", "call compkey.MustDecodeFromString(keyStr, types.GenesisKeySeparator, &key)", "call k.SetRecord(ctx, key, *record)"]),
+  ("x/aol.NewAppModule", ["return _", "kv AppModuleBasic=NewAppModuleBasic(cdc)", "call NewAppModuleBasic(cdc)", "kv keeper=keeper"]),
+  ("x/aol.NewAppModuleBasic", ["return _", "kv cdc=cdc"]),
+  ("x/burn.AppModule.BeginBlock", []),
+  ("x/burn.AppModule.ConsensusVersion", ["return 1", "lit 1"]),
+  ("x/burn.AppModule.EndBlock", ["assign err := am.keeper.BurnCoins(ctx, types.BurnAddress)", "call _.BurnCoins(ctx, types.BurnAddress)", "if err != nil", "call _.Error(_, fmt.Sprintf(\"msg : %s\", err.Error()))", "call ctx.Logger()", "call fmt.Sprintf(_, err.Error())", "lit \"msg : %s\"", "call err.Error()", "return _"]),
+  ("x/burn.AppModule.ExportGenesis", ["assign genState := ExportGenesis(ctx, am.keeper)", "call ExportGenesis(ctx, am.keeper)", "return _", "call cdc.MustMarshalJSON(genState)"]),
+  ("x/burn.AppModule.InitGenesis", ["call cdc.MustUnmarshalJSON(gs, &genState)", "call InitGenesis(ctx, am.keeper, genState)", "return _"]),
+  ("x/burn.AppModule.Name", ["return _", "call _.Name()"]),
+  ("x/burn.AppModule.QuerierRoute", ["return _"]),
+  ("x/burn.AppModule.RegisterInvariants", []),
+  ("x/burn.AppModule.RegisterServices", []),
+  ("x/burn.AppModuleBasic.DefaultGenesis", ["return _", "call cdc.MustMarshalJSON(types.DefaultGenesis())", "call types.DefaultGenesis()"]),
+  ("x/burn.AppModuleBasic.GetQueryCmd", ["return nil"]),
+  ("x/burn.AppModuleBasic.GetTxCmd", ["return nil"]),
+  ("x/burn.AppModuleBasic.Name", ["return _"]),
+  ("x/burn.AppModuleBasic.RegisterCodec", ["call types.RegisterCodec(cdc)"]),
+  ("x/burn.AppModuleBasic.RegisterGRPCGatewayRoutes", []),
+  ("x/burn.AppModuleBasic.RegisterInterfaces", ["call types.RegisterInterfaces(reg)"]),
+  ("x/burn.AppModuleBasic.RegisterLegacyAminoCodec", ["call types.RegisterCodec(cdc)"]),
+  ("x/burn.AppModuleBasic.ValidateGenesis", ["if err != nil", "assign err := cdc.UnmarshalJSON(bz, &genState)", "call cdc.UnmarshalJSON(bz, &genState)", "return _", "call fmt.Errorf(_, types.ModuleName, err)", "return _", "call genState.Validate()"]),
+  ("x/burn.ExportGenesis", ["return _", "call types.DefaultGenesis()"]),
+  ("x/burn.InitGenesis", []),
+  ("x/burn.NewAppModule", ["return _", "kv AppModuleBasic=NewAppModuleBasic(cdc)", "call NewAppModuleBasic(cdc)", "kv keeper=keeper"]),
+  ("x/burn.NewAppModuleBasic", ["return _", "kv cdc=cdc"]),
+  ("x/did.AppModule.BeginBlock", []),
+  ("x/did.AppModule.ConsensusVersion", ["return 1", "lit 1"]),
+  ("x/did.AppModule.EndBlock", ["return _"]),
+  ("x/did.AppModule.ExportGenesis", ["assign genState := ExportGenesis(ctx, am.keeper)", "call ExportGenesis(ctx, am.keeper)", "return _", "call cdc.MustMarshalJSON(genState)"]),
+  ("x/did.AppModule.InitGenesis", ["call cdc.MustUnmarshalJSON(gs, &genState)", "call InitGenesis(ctx, am.keeper, genState)", "return _"]),
+  ("x/did.AppModule.Name", ["return _", "call _.Name()"]),
+  ("x/did.AppModule.QuerierRoute", ["return _"]),
+  ("x/did.AppModule.RegisterInvariants", []),
+  ("x/did.AppModule.RegisterServices", ["call types.RegisterQueryServer(cfg.QueryServer(), am.keeper)", "call cfg.QueryServer()", "call types.RegisterMsgServer(cfg.MsgServer(), keeper.NewMsgServerImpl(am.keeper))", "call cfg.MsgServer()", "call keeper.NewMsgServerImpl(am.keeper)"]),
+  ("x/did.AppModuleBasic.DefaultGenesis", ["return _", "call cdc.MustMarshalJSON(types.DefaultGenesis())", "call types.DefaultGenesis()"]),
+  ("x/did.AppModuleBasic.GetQueryCmd", ["return _", "call cli.GetQueryCmd(types.StoreKey)"]),
+  ("x/did.AppModuleBasic.GetTxCmd", ["return _", "call cli.GetTxCmd()"]),
+  ("x/did.AppModuleBasic.Name", ["return _"]),
+  ("x/did.AppModuleBasic.RegisterCodec", ["call types.RegisterCodec(cdc)"]),
+  ("x/did.AppModuleBasic.RegisterGRPCGatewayRoutes", ["assign err := _", "call types.RegisterQueryHandlerClient(context.Background(), mux, types.NewQueryClient(clientCtx))", "call context.Background()", "call types.NewQueryClient(clientCtx)", "if err != nil", "call panic(\"Error RegisterGRPCGatewayRoutes\")", "lit \"Error RegisterGRPCGatewayRoutes\""]),
+  ("x/did.AppModuleBasic.RegisterInterfaces", ["call types.RegisterInterfaces(reg)"]),
+  ("x/did.AppModuleBasic.RegisterLegacyAminoCodec", ["call types.RegisterCodec(cdc)"]),
+  ("x/did.AppModuleBasic.ValidateGenesis", ["if err != nil", "assign err := cdc.UnmarshalJSON(bz, &genState)", "call cdc.UnmarshalJSON(bz, &genState)", "return _", "call fmt.Errorf(_, types.ModuleName, err)", "return _", "call genState.Validate()"]),
+  ("x/did.ExportGenesis", ["assign documentsMap := make(map[string]*types.DIDDocumentWithSeq)", "call make(map[string]*types.DIDDocumentWithSeq)", "range k.ListDIDs(ctx)", "call k.ListDIDs(ctx)", "assign key := _", "call _.Marshal()", "kv DID=did", "assign document := k.GetDIDDocument(ctx, did)", "call k.GetDIDDocument(ctx, did)", "assign documentsMap[key] = &document", "return _", "kv Documents=documentsMap"]),
+  ("x/did.InitGenesis", ["range data.Documents", "call k.SetDIDDocument(ctx, did, *doc)"]),
+  ("x/did.NewAppModule", ["return _", "kv AppModuleBasic=NewAppModuleBasic(cdc)", "call NewAppModuleBasic(cdc)", "kv keeper=keeper"]),
+  ("x/did.NewAppModuleBasic", ["return _", "kv cdc=cdc"]),
+  ("x/pnft.AppModule.BeginBlock", []),
+  ("x/pnft.AppModule.ConsensusVersion", ["return 1", "lit 1"]),
+  ("x/pnft.AppModule.EndBlock", ["return _"]),
+  ("x/pnft.AppModule.ExportGenesis", ["assign genState := ExportGenesis(ctx, am.keeper)", "call ExportGenesis(ctx, am.keeper)", "return _", "call cdc.MustMarshalJSON(genState)"]),
+  ("x/pnft.AppModule.InitGenesis", ["call cdc.MustUnmarshalJSON(data, &genState)", "call InitGenesis(ctx, am.keeper, genState)", "return _"]),
+  ("x/pnft.AppModule.QuerierRoute", ["return _"]),
+  ("x/pnft.AppModule.RegisterInvariants", []),
+  ("x/pnft.AppModule.RegisterServices", ["call types.RegisterQueryServer(cfg.QueryServer(), am.keeper)", "call cfg.QueryServer()", "call types.RegisterMsgServer(cfg.MsgServer(), keeper.NewMsgServerImpl(am.keeper))", "call cfg.MsgServer()", "call keeper.NewMsgServerImpl(am.keeper)"]),
+  ("x/pnft.AppModuleBasic.DefaultGenesis", ["return _", "call cdc.MustMarshalJSON(types.DefaultGenesis())", "call types.DefaultGenesis()"]),
+  ("x/pnft.AppModuleBasic.GetQueryCmd", ["return _", "call cli.NewGetQueryCmd()"]),
+  ("x/pnft.AppModuleBasic.GetTxCmd", ["return _", "call cli.NewTxCmd()"]),
+  ("x/pnft.AppModuleBasic.Name", ["return _"]),
+  ("x/pnft.AppModuleBasic.RegisterGRPCGatewayRoutes", ["if err != nil", "assign err := _", "call types.RegisterQueryHandlerClient(context.Background(), mux, types.NewQueryClient(clientContext))", "call context.Background()", "call types.NewQueryClient(clientContext)", "call panic(err)"]),
+  ("x/pnft.AppModuleBasic.RegisterInterfaces", ["call types.RegisterInterfaces(registry)"]),
+  ("x/pnft.AppModuleBasic.RegisterLegacyAminoCodec", ["call types.RegisterCodec(cdc)"]),
+  ("x/pnft.AppModuleBasic.ValidateGenesis", ["if err != nil", "assign err := cdc.UnmarshalJSON(bz, &genState)", "call cdc.UnmarshalJSON(bz, &genState)", "return _", "call fmt.Errorf(_, types.ModuleName, err)", "return _", "call genState.ValidateBasic()"]),
+  ("x/pnft.ExportGenesis", ["assign genesis := types.DefaultGenesis()", "call types.DefaultGenesis()", "assign denoms,err := k.GetAllDenoms(ctx)", "call k.GetAllDenoms(ctx)", "if err != nil", "call panic(err)", "range denoms", "assign pnftsByDenom,err := k.GetPNFTsByDenomId(ctx, denom.Id)", "call k.GetPNFTsByDenomId(ctx, denom.Id)", "if err != nil", "call panic(err)", "assign pnfts = append(pnfts, pnftsByDenom...)", "call append(pnfts, pnftsByDenom)", "assign genesis.Denoms = denoms", "assign genesis.Pnfts = pnfts", "return genesis"]),
+  ("x/pnft.InitGenesis", ["range genState.Denoms", "if err != nil", "assign err := k.SaveDenom(ctx, denom)", "call k.SaveDenom(ctx, denom)", "call panic(err)", "range genState.Pnfts", "if err != nil", "assign err := k.ImportPNFT(ctx, pnft)", "call k.ImportPNFT(ctx, pnft)", "call panic(err)"]),
+  ("x/pnft.NewAppModule", ["return _", "kv AppModuleBasic=NewAppModuleBasic(cdc)", "call NewAppModuleBasic(cdc)", "kv keeper=keeper"]),
+  ("x/pnft.NewAppModuleBasic", ["return _", "kv cdc=cdc"])
+]
+
 /-- arguments of sdk.NewKVStoreKeys in app/keepers/keys.go -/
 def mountedStores : List String := ["acc", "bank", "staking", "crisis", "mint", "distribution", "slashing", "gov", "params", "consensus", "upgrade", "feegrant", "evidence", "capability", "authz", "group", "ibc", "transfer", "aol", "did", "burn", "pnft"]
 
